@@ -11,6 +11,7 @@ CONSTANTS
   MaxDepth = 3
   CellMask = TRUE
   CopyClear = FALSE
+  DataCopyDepth = 0
   Valueless = TRUE
   Deviations = {"NoTouchRaises"}
 INVARIANT CellsJoinSameCoords
